@@ -26,7 +26,7 @@ Print Assumptions C06_prefix_decode_encode.
 Theorem C06_prefix_addpath_roundtrip : forall ps, Forall wf_apfx ps ->
   construct_prefix_v4_ap ps = Ok (concat (map enc_aprefix ps)) /\
   parse_prefix_list_ap (concat (map enc_aprefix ps)) = Ok ps.
-Proof. intros ps H. split; [exact (construct_prefix_v4_ap_ok ps H) | exact (parse_prefix_list_ap_enc ps H)]. Qed.
+Proof. exact prefix_addpath_roundtrip. Qed.
 Print Assumptions C06_prefix_addpath_roundtrip.
 
 Example C06_prefix_nonvacuous :
